@@ -94,6 +94,39 @@ impl FaceIntegralWithData for FaceTag {
     }
 }
 
+/// a face integral whose per-cell datum is the integrator itself: `init_with_data` looks up the cell on the other side of the
+/// face and DECOMPOSES IT (a nested integral, as a centroid-to-centroid flux estimate would), then records its own triangles
+pub struct NestedTri<'a, M: ConvexCellMarker + 'static> {
+    pub tris: Vec<[DVec3; 4]>,
+    pub ngb_volume: f64,
+    _m: std::marker::PhantomData<&'a M>,
+}
+impl<'a, M: ConvexCellMarker + 'static> Clone for NestedTri<'a, M> {
+    fn clone(&self) -> Self {
+        NestedTri { tris: self.tris.clone(), ngb_volume: self.ngb_volume, _m: std::marker::PhantomData }
+    }
+}
+impl<'a, M: ConvexCellMarker + 'static> FaceIntegralWithData for NestedTri<'a, M> {
+    type Data = Option<&'a VoronoiIntegrator<M>>;
+    fn init_with_data<N: ConvexCellMarker>(cell: &ConvexCell<N>, clipping_plane_idx: usize, data: Self::Data) -> Self {
+        let right = cell.clipping_planes[clipping_plane_idx].right_idx;
+        let ngb_volume = match (data, right) {
+            (Some(vi), Some(r)) => vi
+                .get_cell_at(r)
+                .map(|ngb| ngb.compute_cell_integral::<(), meshless_voronoi::integrals::VolumeIntegral>(()).volume)
+                .unwrap_or(0.),
+            _ => 0.,
+        };
+        NestedTri { tris: vec![], ngb_volume, _m: std::marker::PhantomData }
+    }
+    fn collect_with_data(&mut self, v0: DVec3, v1: DVec3, v2: DVec3, gen: DVec3) {
+        self.tris.push([v0, v1, v2, gen]);
+    }
+    fn finalize_with_data(self) -> Self {
+        self
+    }
+}
+
 fn mask_tokens(mask: &Option<Vec<bool>>) -> String {
     match mask {
         None => "M -".to_string(),
@@ -142,6 +175,20 @@ fn dump<M: ConvexCellMarker + 'static>(vi: &VoronoiIntegrator<M>, n: usize) -> S
         for f in &ft {
             s.push_str(&format!(" {} {} {}", f.left(), f.integral().cell, f.integral().data));
         }
+    }
+    // nested use: a with-data face integral that decomposes the neighbouring cell inside `init_with_data` must still be fed
+    // exactly the triangles a plain face integral is fed (bitwise, same order)
+    {
+        let nd: Vec<Option<&VoronoiIntegrator<M>>> = vec![Some(vi); n];
+        let nested = vi.compute_face_integrals_with_data::<Option<&VoronoiIntegrator<M>>, NestedTri<M>>(&nd);
+        let mut bad = if nested.len() == faces.len() { 0 } else { 1 + faces.len() };
+        for (a, b) in nested.iter().zip(faces.iter()) {
+            let (ta, tb) = (&a.integral().tris, &b.integral().tris);
+            if ta.len() != tb.len() || ta.iter().zip(tb.iter()).any(|(x, y)| (0..4).any(|k| x[k].to_array().map(f64::to_bits) != y[k].to_array().map(f64::to_bits))) {
+                bad += 1;
+            }
+        }
+        s.push_str(&format!(" NEST {}", bad));
     }
     s
 }
